@@ -10,6 +10,9 @@ import (
 
 // handle incoming SHIP messages and coordinate Handshake States
 func (c *ShipConnection) handleShipMessage(timeout bool, message []byte) {
+	c.handshakeMux.Lock()
+	defer c.handshakeMux.Unlock()
+
 	if len(message) > 2 {
 		var closeMsg model.ConnectionClose
 		err := c.processShipJsonMessage(message, &closeMsg)
@@ -245,6 +248,9 @@ func (c *ShipConnection) setHandshakeTimer(timerType timeoutTimerType, duration 
 			return
 		case <-time.After(duration):
 			// only the most recent timer may report a timeout, and only if it wasn't stopped
+			c.handshakeMux.Lock()
+			defer c.handshakeMux.Unlock()
+
 			if !c.expireHandshakeTimer(stopChan) {
 				return
 			}
